@@ -193,7 +193,7 @@ func ZZ_C14_Regexps(sv *zzsv.T) {
 
 // ZZ_C14_Numbers: integer and decimal literals denote their numeric value.
 func ZZ_C14_Numbers(sv *zzsv.T) {
-	nd := 1 + sv.Choice("ndigits", sv.Param("num.maxdigits", 4, 9))
+	nd := 1 + sv.Choice("ndigits", sv.Param("num.maxdigits", 4, 5))
 	ds := sv.String("d", nd)
 	val := int64(0)
 	for i := 0; i < nd; i++ {
@@ -201,9 +201,26 @@ func ZZ_C14_Numbers(sv *zzsv.T) {
 		sv.Assume(ds[i] <= '9')
 		val = val*10 + int64(ds[i]-'0')
 	}
-	form := sv.Choice("form", 3)
+	form := sv.Choice("form", 4)
 	var src string
 	switch form {
+	case 3:
+		// around the largest integer: 92233720368547758dd is exact up to
+		// ...07 and must be refused above - never another number
+		sv.Assume(nd == 2)
+		src = "return 92233720368547758" + ds + ";"
+		sv.Note("script", src)
+		e := New(src)
+		err := e.Prepare()
+		sv.Observe("prepare", err != nil)
+		if err != nil {
+			sv.Assert("C14.number.refused_only_when_too_large", val > 7)
+			return
+		}
+		out, rerr := e.Execute(nil)
+		zzDescribe(sv, "result", out, rerr)
+		sv.Assert("C14.number.int64_boundary", rerr == nil && val <= 7 && zzSame(sv, out, zInt(9223372036854775800+val)))
+		return
 	case 0:
 		src = "return " + ds + ";"
 	case 1:
@@ -320,7 +337,10 @@ func ZZ_C14_Layout(sv *zzsv.T) {
 			plain += " "
 			// filler: 1-2 symbolic blank bytes, optionally a comment with
 			// symbolic content
-			nb := 1 + sv.Choice("nblank", sv.Param("layout.maxblank", 1, 2))
+			nb := 1
+			if i == sv.Param("layout.commentat", 5, 4) {
+				nb = 1 + sv.Choice("nblank", sv.Param("layout.maxblank", 1, 2))
+			}
 			fb := sv.String("blank", nb)
 			for j := 0; j < nb; j++ {
 				sv.Assume(fb[j] == ' ' || fb[j] == '\t' || fb[j] == '\n' || fb[j] == '\r')
